@@ -17,6 +17,31 @@ CHECKS = {
         "Trusted: the lifecycle table in checks/c01.py (taken from the property text), the drivers' alphabets; documented "
         "ValueError of CUSUM for sd=0 and sklearn's zero-bandwidth rejection end a branch without verdict.",
     ),
+    "C02": (
+        "bounded exhaustive exploration of update / set_reference sequences, differential oracle against a freshly constructed twin per epoch",
+        "Every sequence of updates (and, for batch detectors, set_reference events at any position) up to the stated depth is run on "
+        "the real detector; whenever it reported drift or a new reference is set, a newly constructed detector with the documented "
+        "carry-over is built under the same numpy seed and both are advanced in lock-step; all public observables must agree "
+        "bit-for-bit (indices shifted by the epoch offset). The twin is replaced at every drift, so later epochs are always compared "
+        "with a first-epoch detector. No hand-written expected values.",
+        "Trusted: the carry-over rules stated in the property (CUSUM mean/std of the last burn_in observations, drifted batch as "
+        "reference), numpy seeding as the only source of randomness.",
+    ),
+    "C17": (
+        "bounded exhaustive exploration of histories with all ladder settings in lock-step, differential first-drift oracle",
+        "For each detector family a ladder of 3-4 values of the detection parameter is advanced in lock-step on every history of the "
+        "alphabet up to the stated depth under one seed schedule; every ordered (looser, stricter) pair is judged: the stricter run "
+        "never reports its first drift before the looser one. Warning clause: drift positions identical, tighter warnings are a "
+        "subset of looser warnings on the whole multi-epoch history.",
+        "Trusted: identical seeding of all ladder members; one recorded finding (Page-Hinkley threshold 0 vs >0 on negative running means).",
+    ),
+    "C18": (
+        "exhaustive enumeration of all row permutations of one (two) batch(es) in short batch histories, differential oracle",
+        "Reference plus up to three test batches from a small menu; at one position (two for batches of <= 4 rows) the batch is "
+        "replaced by every one of its non-identity row permutations (up to 119); original and permuted run use identical seeds; "
+        "divergences must agree to 1e-12 and, where the property says so, the complete decision trace must be identical.",
+        "Trusted: the recomputation of the kdq divergence from to_plotly_dataframe() and of the NNPS distance through the public partitioner API.",
+    ),
     "C05": (
         "bounded exhaustive enumeration of all binary outcome sequences on the real detectors, lock-step against executable specifications",
         "Every binary outcome sequence up to the stated length is executed on the real DDM/EDDM/STEPD objects for every "
